@@ -233,6 +233,7 @@ func TestC04(t *testing.T) {
 		acts["double"] = double
 		acts["fork"] = fork
 		acts["receive2"] = h.ActReceive
+		acts["produceLazy"] = h.ActProduceLazy
 		c.Repeat(acts, inv)
 		for i := 0; i < 2 && !h.Dead; i++ {
 			h.Produce(0)
